@@ -1,5 +1,6 @@
 #![allow(dead_code)]
 mod conc;
+mod corpus;
 mod explore;
 mod families;
 mod faults;
@@ -22,6 +23,8 @@ fn main() {
 	match cmd {
 		"C01" | "C02" | "C05" => conc::check_core(cmd, &tier),
 		"C03" => menuchecks::check_c03(&tier),
+		"C09" => conc::check_c09(&tier),
+		"C11" => conc::check_c11(&tier),
 		"C10" => menuchecks::check_c10(&tier),
 		"C06" => menuchecks::check_c06(&tier),
 		"C04" => seqchecks::check_c04(&tier),
@@ -29,6 +32,8 @@ fn main() {
 		"C08" => seqchecks::check_c08(&tier),
 		"C12" => faults::check_c12(&tier),
 		"C13" => seqchecks::check_c13(&tier),
+		"C14" => corpus::check("C14", &tier),
+		"C15" => corpus::check("C15", &tier),
 		"C17" => seqchecks::check_c17(&tier),
 		_ => {
 			eprintln!("usage: hlverif <C01..C17|replay> <quick|thorough>");
